@@ -1,0 +1,16 @@
+//go:build verif
+
+package vm
+
+import "github.com/nspcc-dev/neo-go/pkg/crypto/keys"
+
+// VerifMultisigGate, when set, is called by every worker of CheckMultisigPar
+// right before it verifies a signature and delivers the result. A blocking
+// gate lets a harness choose the order in which results are delivered.
+var VerifMultisigGate func(signum int, pub *keys.PublicKey)
+
+func verifMultisigGate(signum int, pub *keys.PublicKey) {
+	if g := VerifMultisigGate; g != nil {
+		g(signum, pub)
+	}
+}
